@@ -465,3 +465,122 @@ def boundary(repo, only_wider=False):
     if only_wider:
         res.findings = [x for x in res.findings if x.key not in narrower and f"R-BOUNDARY|{x.key}" not in narrower]
     return res
+
+
+# ---- R-RENDERCONST: the C++ text of an integer constant denotes that integer ----------------------------
+def _pyeval(node, env):
+    if isinstance(node, ast.Constant):
+        return node.value
+    if isinstance(node, ast.Name):
+        if node.id in env:
+            return env[node.id]
+        raise Unfoldable(node.id)
+    if isinstance(node, ast.UnaryOp) and isinstance(node.op, ast.USub):
+        return -_pyeval(node.operand, env)
+    if isinstance(node, ast.UnaryOp) and isinstance(node.op, ast.Not):
+        return not _pyeval(node.operand, env)
+    if isinstance(node, ast.BinOp):
+        a, b = _pyeval(node.left, env), _pyeval(node.right, env)
+        ops = {ast.Add: lambda: a + b, ast.Sub: lambda: a - b, ast.Mult: lambda: a * b, ast.Pow: lambda: a ** b,
+               ast.FloorDiv: lambda: a // b, ast.Mod: lambda: a % b}
+        if type(node.op) in ops:
+            return ops[type(node.op)]()
+    if isinstance(node, ast.BoolOp):
+        vals = [_pyeval(v, env) for v in node.values]
+        return all(vals) if isinstance(node.op, ast.And) else any(vals)
+    if isinstance(node, ast.Compare):
+        left = _pyeval(node.left, env)
+        for op, c in zip(node.ops, node.comparators):
+            right = _pyeval(c, env)
+            ok = {ast.Eq: left == right, ast.NotEq: left != right, ast.Lt: None, ast.LtE: None, ast.Gt: None, ast.GtE: None,
+                  ast.In: None, ast.NotIn: None}
+            t = type(op)
+            if t in (ast.Lt, ast.LtE, ast.Gt, ast.GtE):
+                r = {ast.Lt: left < right, ast.LtE: left <= right, ast.Gt: left > right, ast.GtE: left >= right}[t]
+            elif t in (ast.In, ast.NotIn):
+                r = (left in right) if t is ast.In else (left not in right)
+            else:
+                r = ok[t]
+            if not r:
+                return False
+            left = right
+        return True
+    if isinstance(node, ast.IfExp):
+        return _pyeval(node.body if _pyeval(node.test, env) else node.orelse, env)
+    if isinstance(node, ast.Call) and isinstance(node.func, ast.Attribute) and node.func.attr == "format":
+        fmt = _pyeval(node.func.value, env)
+        return fmt.format(*[_pyeval(a, env) for a in node.args])
+    if isinstance(node, ast.Call) and isinstance(node.func, ast.Name) and node.func.id == "str" and len(node.args) == 1:
+        return str(_pyeval(node.args[0], env))
+    raise Unfoldable(ast.unparse(node))
+
+
+def renderconst(repo):
+    """R-RENDERCONST (C05/C01): the text `_render_integer(v)` produces is a C++ expression whose value is v.
+    For the values at every edge of the four candidate types (and their neighbours) the function body is followed
+    with v bound — the `if` on the special case is decided, the format strings are filled — and the resulting C++
+    text `static_cast<T>(<expr>)` is folded by the typed C++ folder (literal suffix rules included): the value must be
+    v, representable in T, and a decimal literal too large for `long long` / `unsigned long long` is reported."""
+    from .. import cppexpr as X
+    res = RuleResult("R-RENDERCONST")
+    m = repo.mod(HG)
+    f = m.funcs.get("_render_integer")
+    if f is None:
+        raise AnalysisError("header_generator._render_integer vanished")
+
+    def cpp_type(v):
+        for name, (lo, hi) in (("::std::int32_t", (-2**31, 2**31 - 1)), ("::std::uint32_t", (0, 2**32 - 1)),
+                               ("::std::int64_t", (-2**63, 2**63 - 1)), ("::std::uint64_t", (0, 2**64 - 1))):
+            if lo <= v <= hi:
+                return name
+        return None
+
+    def run(stmts, env):
+        for st in stmts:
+            if isinstance(st, ast.Assign) and isinstance(st.targets[0], ast.Name):
+                if isinstance(st.value, ast.Call) and (call_name(st.value) or "").startswith("_cpp_integer_type_for_range"):
+                    env[st.targets[0].id] = cpp_type(env["value"])
+                else:
+                    env[st.targets[0].id] = _pyeval(st.value, env)
+            elif isinstance(st, ast.If):
+                r = run(st.body if _pyeval(st.test, env) else st.orelse, env)
+                if r is not None:
+                    return r
+            elif isinstance(st, ast.Return):
+                return _pyeval(st.value, env)
+            elif isinstance(st, (ast.Assert, ast.Expr)):
+                continue
+            else:
+                raise Unfoldable(type(st).__name__)
+        return None
+
+    edges = sorted({e + d for e in (-2**63, -2**31, 0, 2**31, 2**32, 2**63, 2**64 - 1) for d in (-2, -1, 0, 1, 2)
+                    if -2**63 <= e + d <= 2**64 - 1} | {7, -7, 10**18, -10**18})
+    pname = f.node.args.args[0].arg
+    for v in edges:
+        res.instances += 1
+        try:
+            text = run(f.node.body, {pname: v, "value": v})
+        except Unfoldable as u:
+            raise AnalysisError(f"_render_integer: cannot follow `{u}`")
+        mm = re.fullmatch(r"static_cast<\s*(?:/\*\*/)?\s*(::std::u?int\d+_t)\s*>\((.*)\)", text or "")
+        if not mm:
+            res.add(f"{HG}|_render_integer|shape|{v}", f"_render_integer({v}) gives `{text}`, not static_cast<T>(<literal expression>)", HG, f.line, f.name)
+            continue
+        tname, expr = mm.groups()
+        t = X.BUILTIN_TYPES[tname.replace("::std::", "")]
+        try:
+            val = X.evaluate(X.parse(expr), X.Env())
+            got = val.v
+            fits = t.lo <= got <= t.hi
+        except X.UB as u:
+            got, fits = f"undefined behaviour ({u})", False
+        except X.Unsupported as u:
+            got, fits = f"not a valid literal expression ({u})", False
+        if got != v or not fits:
+            res.add(f"{HG}|_render_integer|value", f"_render_integer({v}) gives `{text}`, which denotes {got}: the constant the front end "
+                    "folded is not the constant the generated code contains", HG, f.line, f.name)
+            break
+    res.samples = [f"{len(edges)} edge values rendered and folded back"]
+    res.analysed = [HG]
+    return res
